@@ -20,6 +20,7 @@ POOL = {
     'dwt1d_pc': ("DWT1DForward(J=2, wave='db2', mode='periodic')", 'float64'),
     'idwt_per': ("DWTInverse(wave='db3', mode='periodization')", 'float64'),
     'dwt_coif1': ("DWTForward(J=1, wave='coif1', mode='zero')", 'float64'),      # same filter length as db3, other taps
+    'scat2': ("ScatLayerj2(biort='near_sym_a', qshift='qshift_a', magbias=1e-2)", 'float64'),
     'dtf_masks': ("DTCWTForward(biort='near_sym_b', qshift='qshift_c', J=3, skip_hps=[False, True, False], include_scale=[True, False, True])", 'float64'),
 }
 ORDER = list(POOL)
@@ -35,8 +36,8 @@ def _arr(shape, k, dtype):
 def inputs(name, i):
     """Fixed input number i (0/1: different shapes) for module `name`, as a list-structured description of numpy arrays."""
     dt = np.float32 if POOL[name][1] == 'float32' else np.float64
-    if name in ('dtf_a', 'dtf_b', 'scat1', 'dwt_per', 'dwt_sym32', 'dwt_coif1', 'dtf_masks'):
-        shape = [(1, 1, 8, 8), (2, 2, 6, 10)][i] if name != 'scat1' else [(1, 1, 8, 8), (2, 2, 6, 12)][i]
+    if name in ('dtf_a', 'dtf_b', 'scat1', 'scat2', 'dwt_per', 'dwt_sym32', 'dwt_coif1', 'dtf_masks'):
+        shape = [(1, 1, 8, 8), (2, 2, 6, 10)][i] if name not in ('scat1', 'scat2') else ([(1, 1, 8, 8), (2, 2, 6, 12)][i] if name == 'scat1' else [(1, 1, 10, 16), (2, 2, 12, 13)][i])
         return {'x': _arr(shape, i, dt)}
     if name == 'dwt1d_pc':
         return {'x': _arr([(1, 1, 16), (2, 3, 9)][i], i, dt)}
